@@ -613,6 +613,63 @@ fn run_output_buffers(cx: &mut CaseCx, _case: &Value) {
   cx.outcome("output buffers");
 }
 
+
+/// "mutually combinable" for triples found by boundary search on an internal value: measurements whose 16-byte
+/// sharing key has a 0x00 / 0xff boundary byte (or a zero pair) - independent clients' shares must combine,
+/// to one and the same message, whose derived key is the clients' key
+fn run_boundary_keys(cx: &mut CaseCx, case: &Value) {
+  let t = case["t"].as_u64().unwrap() as u32;
+  let lo = case["lo"].as_u64().unwrap();
+  let epoch = b"epoch-7".to_vec();
+  let (found, examined) = super::c01::boundary_key_measurements("measurement-", &epoch, t, lo, 300);
+  cx.count("keys_examined", examined);
+  cx.count("boundary_keys_found", found.len() as u64);
+  for (meas, k) in found {
+    let n = t as usize + 1;
+    let mut shares = vec![];
+    let mut key0 = None;
+    for i in 0..n {
+      getrandom::verif::set_group(40 + i as u32);
+      let mg = MessageGenerator::new(SingleMeasurement::new(&meas), t, &epoch);
+      match guard(|| mg.share_with_local_randomness().map_err(|e| e.to_string())) {
+        Ok(Ok(w)) => {
+          if key0.is_some() && key0 != Some(w.key) {
+            cx.viol("C04/key-not-deterministic", "clients agreeing on the triple derive different keys", json!({"measurement": String::from_utf8_lossy(&meas)}));
+          }
+          key0 = Some(w.key);
+          shares.push(w.share);
+        }
+        _ => {
+          cx.viol("C04/share-failed", "share_with_local_randomness failed", json!({"measurement": String::from_utf8_lossy(&meas)}));
+          return;
+        }
+      }
+    }
+    cx.nontrivial(fnv(&meas) ^ t as u64);
+    let mut sels: Vec<Vec<usize>> = vec![(0..n).collect()];
+    for_each_subset(n, t as usize, |s| sels.push(s.to_vec()));
+    for sel in sels {
+      let sh: Vec<sta_rs::Share> = sel.iter().map(|&i| shares[i].clone()).collect();
+      cx.eval();
+      match recover_msg(&sh) {
+        Ok(Ok(mm)) => {
+          let mut kk = vec![0u8; 16];
+          sta_rs::derive_ske_key(&mm, &epoch, &mut kk);
+          if Some(&kk[..]) != key0.as_ref().map(|k| &k[..]) {
+            cx.viol("C04/recovered-key-differs", "the key derived from the recovered message differs from the clients' key", json!({"measurement": String::from_utf8_lossy(&meas), "sharing_key": hex(&k)}));
+          }
+          cx.count("boundary_combinable", 1);
+        }
+        other => {
+          cx.viol("C04/not-combinable/boundary-key", format!("{} shares of independent clients of ({:?}, epoch-7, t={}) do not combine: {:?} (the sharing key of this triple is {}: a zero / 0xff boundary byte)", sel.len(), String::from_utf8_lossy(&meas), t, other.map(|r| r.map(|_| ())), hex(&k)), json!({"measurement": String::from_utf8_lossy(&meas), "t": t, "sharing_key": hex(&k)}));
+          return;
+        }
+      }
+    }
+  }
+  cx.outcome("boundary keys combinable");
+}
+
 /// boundary search on internal values: the pairs of triples whose local randomness agree in the most leading /
 /// trailing bytes are processed back-to-back on one thread; each must come out as on a fresh thread
 fn run_near_collisions(cx: &mut CaseCx, _case: &Value) {
@@ -743,6 +800,21 @@ pub fn spec() -> PropSpec {
         gen: |_| vec![json!({})],
         run: run_output_buffers,
         min_counts: &[("buffer_probes", 500)],
+      },
+      Check {
+        name: "boundary-keys",
+        rule: "boundary search on an internal value: of 1200 (thorough 4800) triples per threshold (t in {2,3}) those whose 16-byte sharing key has a 0x00 / 0xff first, middle or last byte or a zero pair (about 1 in 45): t+1 independent clients - equal keys, every t-subset and the full set combine, the key derived from the recovered message is the clients' key",
+        gen: |tier| {
+          let mut v = vec![];
+          for t in [2u64, 3] {
+            for c in 0..(if tier.thorough() { 16u64 } else { 4 }) {
+              v.push(json!({"t": t, "lo": c * 300}));
+            }
+          }
+          v
+        },
+        run: run_boundary_keys,
+        min_counts: &[("boundary_keys_found", 30), ("boundary_combinable", 100)],
       },
       Check {
         name: "client-threads",
